@@ -63,9 +63,9 @@ class RandomShim:
     def shuffle(self, lst):
         if not self.perms:
             return
-        k = self.perms[self.n % len(self.perms)]
+        k = self.perms[self.n % len(self.perms)] + (self.n // len(self.perms))   # fair: every rotation comes up
         self.n += 1
-        if len(lst) > 1 and k:
+        if len(lst) > 1 and k % len(lst):
             k %= len(lst)
             lst[:] = lst[k:] + lst[:k]
 
@@ -122,6 +122,7 @@ class Device:
         self.send_calls = 0
         self.send_fail = set(spec.get('send_fail', []))
         self.recv_fail = set(spec.get('recv_fail', []))
+        self.hangup_raises = bool(spec.get('hangup_raises'))
         self.recv_calls = 0
         self.recv_failed_now = False
         self.recv_blocking_calls = 0
@@ -183,6 +184,10 @@ class Device:
             self.hung = True
             self.log.ev('dev-hangup', self.sub, round(c.now - c.start, 6))
             port.close()
+            if self.hangup_raises and not data:
+                # the device reports the lost connection as an error after the port has been closed
+                self.recv_failed_now = True
+                raise ConnectionResetError(104, 'Connection reset by peer')
         if self.style != 'old':
             return port._parser.get_message()
 
@@ -239,6 +244,8 @@ class Lifecycle(BaseEngine):
             spec['hangup'] = [rng.randint(0, n), pick(rng, (0.0, 0.0, 0.001, 0.02, 0.3))]
             if rng.random() < 0.3:
                 spec['partial'] = rng.randint(1, 2)
+            if rng.random() < 0.25:
+                spec['hangup_raises'] = True
         if rng.random() < 0.12:
             spec['recv_fail'] = sorted({rng.randrange(8) for _ in range(rng.randint(1, 2))})
         r = rng.random()
@@ -259,6 +266,7 @@ class Lifecycle(BaseEngine):
         if kind == 'multi':
             n = rng.randint(1, 3)
             plan['subs'] = [{'kind': 'dev_io', 'dev': self._gen_dev(rng, split_ok=False)} for _ in range(n)]
+            plan['ports_arg'] = pick(rng, ('list', 'list', 'tuple', 'generator'))
         elif kind == 'ioport':
             plan['dev'] = self._gen_dev(rng, can_hang=rng.random() < 0.4)
         else:
@@ -350,7 +358,9 @@ class Lifecycle(BaseEngine):
             return cls('dev', dev=d, autoreset=ar)
         if kind == 'multi':
             subs = [mk(s['kind'], s['dev'], i) for i, s in enumerate(plan['subs'])]
-            port = mports.MultiPort(subs, yield_ports=plan.get('yield_ports', False))
+            how = plan.get('ports_arg', 'list')
+            arg = subs if how == 'list' else (tuple(subs) if how == 'tuple' else (p for p in subs))
+            port = mports.MultiPort(arg, yield_ports=plan.get('yield_ports', False))
             return port, subs, devs
         if kind == 'ioport':
             spec = plan['dev']
@@ -727,6 +737,10 @@ class Lifecycle(BaseEngine):
                     log.ev('iter', tag, repr(res) if tag not in ('device-read-error', 'raised') else 'error',
                            round(dt, 6))
                     if tag == 'device-read-error':
+                        if P().closed:
+                            raise Violation(f'iteration-raised-on-closed-port@{kind}',
+                                            f'the device closed the port inside receive and reported {res!r}; the '
+                                            f'for-loop let that exception out instead of ending')
                         break
                     if tag == 'raised':
                         # iterating the wrapper after the input below it hung up: how that ends is not judged
